@@ -14,6 +14,8 @@ RULE = ("Histories of 2..14 response datagrams (1..5 records each, drawn from a 
         "scripted peer into one real instance, separated by clock steps around 0/1 s/TTL expiry/10 s purge; optional "
         "link delay, duplication and reordering. After every delivery, every purge and at the end all public lookup "
         "paths are compared with ModelCache. Non-trivial = at least two non-suppressed response datagrams.")
+DISTINCT_RULE = ("Distinct = distinct digests of the full event log (datagram contents, delivery instants, callbacks) "
+                 "among non-trivial runs: the property quantifies over histories.")
 ASSUMPTIONS = [
     "when one datagram lists a previously unknown record twice with different TTLs, either TTL is accepted as 'the "
     "received TTL' (all lookup paths must still agree on it)",
@@ -30,7 +32,7 @@ def generate(rng, tier):
             "flush_p": rng.choice([0.0, 0.3, 0.6]), "ptr_flush_p": rng.choice([0.0, 0.1]),
             "repeat_p": rng.choice([0.0, 0.3, 0.6]),
             "ttls": rng.choice([cl.TTLS, [0, 1, 2, 120], [0, 60, 120, 4500], [1, 2, 1124, 1125], [0, 20, 120]])}
-    n = rng.choice([2, 3, 4, 5, 6, 8, 10, 14])
+    n = rng.choice([2, 3, 4, 5, 6, 8, 10, 14] + ([20, 30, 50] if tier == "thorough" else []))
     ops = []
     t = 0.01
     last_ttls = []
